@@ -245,10 +245,13 @@ class Run:
 
     # ------------------------------------------------------------------ trace validation
     def validate(self, family, module, cfg, trace_file, label="", timeout=900, dfs=False,
-                 max_violations=3, split=None, heap=None):
+                 max_violations=3, split=None, heap=None, advisory=False):
         """Validate every trace in trace_file (traces start at {"e":"reset",...} lines).
         Rejected traces are re-validated in isolation, matched against open known
-        findings, and otherwise reported as violations."""
+        findings, and otherwise reported as violations.
+        advisory=True is for *extension* specifications (behaviour of the subsystem beyond
+        the listed property): a rejected trace is recorded in the evidence and printed as
+        EXT-MISMATCH, never as a VIOLATION of the property, and does not affect the exit code."""
         lines = [ln for ln in open(trace_file).read().splitlines() if ln.strip()]
         starts = []
         for i, ln in enumerate(lines):
@@ -309,6 +312,18 @@ class Run:
                                          "tlc": tail(r2["out"], 12)}) + "\n")
                     fh.write("\n".join(sub) + "\n")
                 where = sub[hw2 - 1] if hw2 and 1 <= hw2 <= len(sub) else "?"
+                if advisory:
+                    log("EXT-MISMATCH spec=%s/%s (extension beyond property %s; not a verdict) trace=%s" %
+                        (family, module, self.pid, path))
+                    log("  rejected at line %s of the trace: %s" % (hw2, where[:300]))
+                    self.extra.setdefault("extension_mismatches", []).append(
+                        {"spec": "%s/%s.tla" % (family, module), "label": label, "trace": path, "at": where[:300]})
+                    if rejected >= max_violations:
+                        break
+                    rest = batch[idx + 1:]
+                    if rest:
+                        queue.insert(0, rest)
+                    continue
                 log("VIOLATION property=%s replay=%s" % (self.pid, path))
                 log("  rejected at line %s of the trace: %s" % (hw2, where[:300]))
                 if hw2 and hw2 >= 2:
